@@ -85,5 +85,46 @@ def stepAt (npy : Bool) (d : Disk) (po : Nat × Op) : Disk × Result :=
 
 def runAt (npy : Bool) (d : Disk) (ops : List (Nat × Op)) : Disk := ops.foldl (fun d o => (stepAt npy d o).1) d
 
+/-! ### a writer and its copies
+
+  `Samples(path, mode="w")` buffers appended columns in memory and writes them out in blocks; `close()`
+  writes what is pending. `copy.copy` / `copy.deepcopy` of a writer give a view that does not own the
+  file: it starts with nothing pending and closing or dropping it writes nothing. Columns are
+  identified by numbers. -/
+
+structure Writer where
+  file : List Nat      -- columns on disk
+  buf : List Nat       -- pending columns of the owner
+  closed : Bool
+  copies : Nat         -- live copies
+  deriving Repr, DecidableEq
+
+inductive WOp where
+  | append (c : Nat)   -- on the owner
+  | flush              -- the owner's buffer is written out (the code does this on its own schedule)
+  | close              -- the owner is closed
+  | copy               -- copy / deepcopy of the owner
+  | closeCopy          -- a copy is closed or dropped
+  deriving Repr, DecidableEq
+
+def wstep (w : Writer) : WOp → Writer
+  | .append c => if w.closed then w else { w with buf := w.buf ++ [c] }
+  | .flush => if w.closed then w else { w with file := w.file ++ w.buf, buf := [] }
+  | .close => if w.closed then w else { w with file := w.file ++ w.buf, buf := [], closed := true }
+  | .copy => { w with copies := w.copies + 1 }
+  | .closeCopy => { w with copies := w.copies - 1 }
+
+def wrun (w : Writer) (ops : List WOp) : Writer := ops.foldl wstep w
+
+/-- everything the owner was given so far: on disk or pending -/
+def Writer.content (w : Writer) : List Nat := w.file ++ w.buf
+
+/-- the columns of the appends that reach an open owner -/
+def accepted : Bool → List WOp → List Nat
+  | _, [] => []
+  | closed, .append c :: rest => if closed then accepted closed rest else c :: accepted closed rest
+  | _, .close :: rest => accepted true rest
+  | closed, _ :: rest => accepted closed rest
+
 end Consent
 end HmcVerif
